@@ -498,6 +498,50 @@ theorem C05_float_scaling_counterexample : ¬ C05_float_scaling_in_range_full :=
   cases hr
 
 
+theorem flt_identity_facts : ∀ F ∈ FltTy.all,
+    Flt.div F (Flt.maxOf F) (.fin 1) = Flt.maxOf F ∧
+    Flt.div F (Flt.lowestOf F) (.fin 1) = Flt.lowestOf F ∧
+    gvFlt F [] = some (.fin 1) := by
+  decide +kernel
+
+/-- **C05, integral → floating, pure change of rep (factor 1), partial.**  For `|x| ≤ 2^digits(F)`
+the conversion is not reported lossy (rightly) and returns exactly `x`. -/
+theorem C05_pipeline_int_to_float_identity (S : IntTy) (F : FltTy) (hF : F ∈ FltTy.all) (x : Int)
+    (h : x.natAbs ≤ 2 ^ F.prec) :
+    lossyT (.int S) (.flt F) ⟨1, 1, []⟩ (.i x) = .ok false ∧
+    (coerceT (.int S) (.flt F) ⟨1, 1, []⟩ (.i x)).val = .ok (.f (.fin (x : Rat))) := by
+  have hx : Flt.ofInt F x = .fin (x : Rat) := C05_int_to_float_exact_partial F hF x h
+  have hr : rne F (x : Rat) = .fin (x : Rat) := hx
+  obtain ⟨_, hmax, _⟩ := fmt_facts F hF
+  obtain ⟨hd1, hd2, hgv⟩ := flt_identity_facts F hF
+  have hcat : categorize 1 1 = .intMul := rfl
+  have hM1 : ¬ (F.maxFinite < (x : Rat)) := by
+    unfold maxFinite
+    rw [Rat.not_lt, ← Rat.intCast_natCast, Rat.intCast_le_intCast]
+    omega
+  have hM2 : ¬ ((x : Rat) < -F.maxFinite) := by
+    unfold maxFinite
+    rw [Rat.not_lt, ← Rat.intCast_natCast, ← Rat.intCast_neg, Rat.intCast_le_intCast]
+    omega
+  have hnoovf : fltWouldOverflow F ⟨1, 1, []⟩ (.fin (x : Rat)) = false := by
+    simp only [Flt.maxOf, Flt.lowestOf] at hd1 hd2
+    simp only [fltWouldOverflow, hcat, hgv, fltWouldProductOverflow, Flt.maxOf, Flt.lowestOf, hd1, hd2,
+      Flt.gt, Flt.lt, hM1, hM2, decide_false, Bool.or_false]
+  have happ : fltApply F ⟨1, 1, []⟩ (.fin (x : Rat)) = .fin (x : Rat) := by
+    simp only [fltApply, hcat, hgv, Option.getD_some, Flt.mul, Rat.mul_one, hr]
+  have hcF : ∀ v, castOverflowF F (.flt F) v = false := by
+    intro v; unfold castOverflowF categorizeOverflow; simp
+  have htF : ∀ v, willCastTruncate (.flt F) (.flt F) v = false := by
+    intro v; unfold willCastTruncate categorizeTruncation; simp
+  have hov : ovfT (.int S) (.flt F) ⟨1, 1, []⟩ (.i x) = .ok false := by
+    simp [ovfT, ArithTy.common, ovfTF, willCastOverflow, castNum, hx, hnoovf, happ, hcF]
+  have htr : truncT (.int S) (.flt F) ⟨1, 1, []⟩ (.i x) = .ok false := by
+    have h1 : willCastTruncate (.int S) (.flt F) (.i x) = false := by
+      unfold willCastTruncate categorizeTruncation; simp
+    simp [truncT, ArithTy.common, truncTF, h1, castNum, hx, fltWouldTruncate, hcat, happ, htF]
+  refine ⟨by unfold lossyT lossyOf; rw [htr, hov], ?_⟩
+  simp [coerceT, ArithTy.common, coerceF, midF, castNum, hx, happ, Flt.cast, hr]
+
 /-- Every ordered pair of the eleven reps is handled by the static_cast checkers (no `UNEXPLORED`
 situation, which would be a compile error). -/
 theorem C05_cast_checkable : ∀ s ∈ ArithTy.all, ∀ d ∈ ArithTy.all, castCheckable s d = true := by
